@@ -132,11 +132,16 @@ def _enc_pair(kind, num, x1, x2, n):
     return dict(kind=kind, num=num, q=scale, a=_enc_arr(a, num, scale), b=_enc_arr(b, num, scale))
 
 
+SPECTRAL = ("subgraph_centrality", "eigenvector_centrality_und")
+
+
 def _mat_dtypes(row, vkey, args, draw):
     """{argument index: dtype} - what each NETWORK argument is handed for the job's draw
-    (rel_common.admissible): bool only where the registry declares a binary network (w='bin'),
-    float32 only when every judged output of the variant is integer by definition, uint8 only
-    for betweenness_bin (copies to float first); weights k/1000 and arguments for which the
+    (rel_common.admissible): bool only where the registry declares a binary network (w='bin') and
+    not for the two spectral measures (scipy's eigh computes a boolean matrix in single precision:
+    bool is float32 in disguise there, 1e-6 noise on a real-valued output is legitimate), float32
+    only when every judged output of the variant is integer by definition, uint8 only for
+    betweenness_bin (copies to float first); weights k/1000 and arguments for which the
     registry fixes a dtype stay as they are.  Lossless by construction (as_variant checks)."""
     if draw == "float64":
         return {}
@@ -150,7 +155,7 @@ def _mat_dtypes(row, vkey, args, draw):
         w = w_override if (w_override and a["role"] == "adj") else a["w"]
         if w == "unit" or not bool(np.all(v == np.round(v))):
             continue
-        dt = rc.admissible(draw, binary=(w == "bin"), structural=structural,
+        dt = rc.admissible(draw, binary=(w == "bin" and row["name"] not in SPECTRAL), structural=structural,
                            floats_first=row["name"] == "betweenness_bin")
         if dt == "bool" and not bool(np.all((v == 0) | (v == 1))):
             dt = "int32"
@@ -384,6 +389,12 @@ def build_jobs(ctx):
                     name, S = structured(und)
                     add(len(S), _rand_perm(rng, len(S)), "struct:" + name, S,
                         uniform=rng.random() < 0.5, und=und)
+                # --- the two extremes at the largest size the measure takes: a hub of degree n-1
+                #     (star) and a diameter of n-1 (path), every time
+                m = min(10, row["maxn"])
+                for name, edges in (("star%d" % m, rc.s_star(m)), ("path%d" % m, rc.s_path(m))):
+                    S = _support(m, edges if und else rc.orient(rng, edges), und)
+                    add(m, _rand_perm(rng, m), "struct:" + name, S, uniform=rng.random() < 0.5, und=und)
                 # --- random n in 6..10
                 for _ in range(int((12 if q else 40) * share)):
                     n = rng.randint(6, 10)
